@@ -97,6 +97,8 @@ class Generated:
 def _apply_common(piece, blk):
     keep = set(blk.get('keep_attrs', '').split())
     piece.strip_attrs([a for a in ALWAYS_STRIP if a not in keep])
+    # Verus rejects `_` as a closure parameter: name the ignored binder (built-in rewrite, counted)
+    piece.rewrite_all('|_|', '|_vx|', kind='rewrite:closure_underscore')
     for w in blk.get('strip', '').split():
         piece.strip_word(w, 'strip_' + w)
     for frm, to, need in blk.get('rewrites', []):
